@@ -90,16 +90,137 @@ Proof.
     destruct J as [[= <- <- <-]|[[= ]|[]]]. exists v'. auto.
   - intros (v0 & I & ->). exists (KOnl a r, v0). split; [exact I|]. left. reflexivity.
 Qed.
-Lemma sview_In_bal s r b a v :
-  In (KBal r b a, v) (sview s) <-> exists v0, In (KOnl a r, v0) s /\ v = tl v0 /\ b = nth 0 v0 0.
+Lemma sview_In_bal s r b a v : Forall entry_ok s ->
+  (In (KBal r b a, v) (sview s) <-> exists v0, In (KOnl a r, v0) s /\ v = tl v0 /\ b = nth 0 v0 0).
 Proof.
-  unfold sview. rewrite in_flat_map. split.
+  intros W. unfold sview. rewrite in_flat_map. split.
   - intros ([k' v'] & I & J). unfold view_entry in J. cbn [fst snd] in J.
     destruct k'; cbn in J; try (destruct J as [[= ]|[]]; fail).
     + destruct J as [[= ]|[[= <- <- <- <-]|[]]]. exists v'. auto.
-    + destruct J as [[= -> -> ->]|[]].
-      destruct (in_split _ _ I) as (? & ? & _). exfalso. revert I. clear. intros I.
-      (* a KBal key inside the abstract store: excluded by spec_wf, but the statement does not assume it *)
-      admit.
+    + rewrite Forall_forall in W. destruct (W _ I) as [_ F]. elim F.
   - intros (v0 & I & -> & ->). exists (KOnl a r, v0). split; [exact I|]. right. left. reflexivity.
-Abort.
+Qed.
+
+Lemma sview_valid s k v : Forall entry_ok s -> In (k, v) (sview s) -> valid_key k = true.
+Proof.
+  intros W I. rewrite Forall_forall in W. unfold sview in I. apply in_flat_map in I as ([k' v'] & I & J).
+  destruct (W _ I) as [V X]. cbn [fst snd] in *. unfold view_entry in J. cbn [fst snd] in J.
+  destruct k'; cbn in J; try (destruct J as [[= <- <-]|[]]; exact V).
+  destruct J as [[= <- <-]|[[= <- <-]|[]]]; [exact V|].
+  cbn [valid_key] in *. apply andb_true_iff in V as [V1 V2]. rewrite V1, V2, X. reflexivity.
+Qed.
+
+(* ---------- point lookups ---------- *)
+Lemma get_refines s kv k : R s kv -> valid_key k = true -> plain k -> kv_get kv (enc k) = alookup s k.
+Proof.
+  intros ((ND & W) & S & M) V P.
+  destruct (alookup s k) as [v|] eqn:E.
+  - apply (kv_get_In kv _ _ S), M. exists k. split; [|reflexivity].
+    apply sview_In_plain; [exact P|]. apply alookup_In_1, E.
+  - apply (kv_get_None kv _ S). intros v I. apply M in I as (k' & I & Ek).
+    apply enc_inj in Ek; [|exact V|eapply sview_valid; eassumption]. subst k'.
+    apply (proj1 (sview_In_plain _ _ _ P)) in I. rewrite alookup_None in E. exact (E v I).
+Qed.
+
+Lemma get_refines_onl s kv a r : R s kv -> valid_key (KOnl a r) = true ->
+  kv_get kv (enc (KOnl a r)) = option_map (@tl N) (alookup s (KOnl a r)).
+Proof.
+  intros ((ND & W) & S & M) V.
+  destruct (alookup s (KOnl a r)) as [v0|] eqn:E; cbn [option_map].
+  - apply (kv_get_In kv _ _ S), M. exists (KOnl a r). split; [|reflexivity].
+    apply sview_In_onl. exists v0. split; [apply alookup_In_1, E|reflexivity].
+  - apply (kv_get_None kv _ S). intros v I. apply M in I as (k' & I & Ek).
+    apply enc_inj in Ek; [|exact V|eapply sview_valid; eassumption]. subst k'.
+    apply sview_In_onl in I as (v0 & I & _). rewrite alookup_None in E. exact (E v0 I).
+Qed.
+
+(* ---------- ORDER BY ---------- *)
+Lemma In_sins x e l : In x (sins e l) <-> x = e \/ In x l.
+Proof.
+  induction l as [|y l IH]; cbn; [intuition|].
+  destruct (skey_ltb (fst e) (fst y)); cbn; rewrite ?IH; intuition.
+Qed.
+Lemma In_ssort x l : In x (ssort l) <-> In x l.
+Proof.
+  induction l as [|y l IH]; cbn; [reflexivity|]. rewrite In_sins, IH. intuition.
+Qed.
+Lemma sselect_In s P e : In e (sselect s P) <-> In e s /\ P (fst e) = true.
+Proof. unfold sselect. rewrite In_ssort, filter_In. reflexivity. Qed.
+
+Lemma ksorted_sins e l : valid_key (fst e) = true -> Forall (fun x => valid_key (fst x) = true) l ->
+  (forall x, In x l -> fst x <> fst e) -> ksorted (map encV l) -> ksorted (map encV (sins e l)).
+Proof.
+  intros Ve. induction l as [|y l IH]; intros Vl NE S; cbn [sins map].
+  - constructor; constructor.
+  - inversion Vl as [|? ? Vy Vl']; subst. cbn [map] in S. pose proof S as S0. apply ksorted_inv in S as [S F].
+    destruct (skey_ltb (fst e) (fst y)) eqn:L; cbn [map].
+    + rewrite skey_ltb_enc in L by assumption. apply bltb_lt in L. change (klt (encV e) (encV y)) in L.
+      constructor; [exact S0|]. constructor; [exact L|].
+      rewrite Forall_forall in F |- *. intros z Iz. exact (klt_trans _ _ _ L (F _ Iz)).
+    + constructor.
+      * apply IH; [exact Vl'| |exact S]. intros x Ix. apply NE. right. exact Ix.
+      * assert (klt (encV y) (encV e)) as Lye.
+        { unfold klt, encV. cbn [fst]. rewrite enc_order by assumption.
+          unfold skey_ltb in L. destruct (skey_cmp (fst e) (fst y)) eqn:C; try discriminate.
+          - apply skey_cmp_eq in C. exfalso. apply (NE y); [left; reflexivity|]. symmetry. exact C.
+          - rewrite <- enc_order in C |- * by assumption. apply bcmp_gt_lt. exact C. }
+        rewrite Forall_forall in F |- *. intros z Iz. apply in_map_iff in Iz as (x & <- & Ix).
+        apply In_sins in Ix as [->|Ix]; [exact Lye|]. apply F. apply in_map. exact Ix.
+Qed.
+
+Lemma ksorted_ssort l : Forall (fun x => valid_key (fst x) = true) l -> NoDup (map fst l) ->
+  ksorted (map encV (ssort l)).
+Proof.
+  induction l as [|e l IH]; intros V ND.
+  - constructor.
+  - change (ssort (e :: l)) with (sins e (ssort l)).
+    inversion V as [|? ? Ve Vl]; subst. inversion ND as [|? ? NI ND']; subst.
+    apply ksorted_sins; [exact Ve| | |apply IH; assumption].
+    + rewrite Forall_forall in Vl |- *. intros x Ix. apply (proj1 (In_ssort _ _)) in Ix. exact (Vl _ Ix).
+    + intros x Ix E. apply (proj1 (In_ssort _ _)) in Ix. apply NI. rewrite <- E. apply in_map. exact Ix.
+Qed.
+
+Lemma wf_valid s : spec_wf s -> Forall (fun x => valid_key (fst x) = true) s.
+Proof. intros [_ W]. rewrite Forall_forall in *. intros x I. exact (proj1 (W _ I)). Qed.
+
+Lemma ksorted_sselect s P : spec_wf s -> ksorted (map encV (sselect s P)).
+Proof.
+  intros W. unfold sselect. apply ksorted_ssort.
+  - pose proof (wf_valid s W) as V. rewrite Forall_forall in *. intros x I. apply filter_In in I as [I _]. exact (V _ I).
+  - apply map_fst_filter. exact (proj1 W).
+Qed.
+
+(* a spec row is stored under its encoded key *)
+Lemma row_stored s kv e : R s kv -> In e s -> In (encV e) kv.
+Proof.
+  intros ((ND & W) & S & M) I. destruct e as [k v]. unfold encV, vval. cbn [fst snd]. apply M. exists k.
+  split; [|reflexivity]. destruct k; try (apply sview_In_plain; [exact Logic.I|exact I]).
+  - apply sview_In_onl. exists v. auto.
+  - rewrite Forall_forall in W. destruct (W _ I) as [_ F]. elim F.
+Qed.
+
+(* range scans: the rows of the byte-string store inside [lo, hi) are the encoded rows the
+   abstract store SELECTs with P, in ORDER BY key order, when [lo, hi) is exactly P on encoded keys *)
+Lemma scan_refines s kv lo hi P : R s kv ->
+  (forall k, valid_key k = true -> in_range lo hi (enc k) = P k) ->
+  (forall r b a, P (KBal r b a) = false) ->
+  kv_range kv lo hi = map encV (sselect s P).
+Proof.
+  intros HR HP HB. pose proof HR as ((ND & W) & S & M).
+  apply ksorted_unique.
+  - apply kv_range_sorted, S.
+  - apply ksorted_sselect. split; assumption.
+  - intros [kb v]. rewrite kv_range_In. cbn [fst]. split.
+    + intros [I Rg]. apply M in I as (k & I & ->).
+      pose proof (sview_valid s k v W I) as V. rewrite HP in Rg by exact V.
+      apply in_map_iff.
+      destruct k; try (match type of I with In (?k0, _) _ => exists (k0, v) end; split; [reflexivity|];
+        apply sselect_In; split; [exact (proj1 (sview_In_plain _ _ _ Logic.I) I)|exact Rg]; fail).
+      * apply sview_In_onl in I as (v0 & I & ->). exists (KOnl a r, v0). split; [reflexivity|].
+        apply sselect_In. split; [exact I|exact Rg].
+      * rewrite HB in Rg. discriminate.
+    + intros I. apply in_map_iff in I as (e & E & I). apply sselect_In in I as [I Pe].
+      pose proof (row_stored s kv e HR I) as J. rewrite E in J. split; [exact J|].
+      unfold encV in E. injection E as <- _. rewrite HP; [exact Pe|].
+      pose proof (wf_valid s (conj ND W)) as V. rewrite Forall_forall in V. exact (V _ I).
+Qed.
